@@ -236,8 +236,29 @@ def canonical_job(modname: str, env: dict, tests: bool = False) -> dict:
     return _job(0, f"canon:{modname}", env, [{"op": "observe", "m": modname, "tests": tests}])
 
 
+def _whole_catalogue_job(seed, tag, env, order_seed, n_observe, tests=False) -> dict:
+    """Import the entire catalogue in one seeded order (what a long session or a test run does),
+    then observe a sample (or all) of the modules."""
+    mods = list(modules())
+    rng = core.rng_for(seed, PROP, tag, f"order{order_seed}")
+    if order_seed == -1:
+        mods.sort(reverse=True)
+    else:
+        rng.shuffle(mods)
+    ops = [{"op": "import", "m": m} for m in mods]
+    watch = mods if n_observe is None else sorted(rng.sample(mods, n_observe))
+    ops += [{"op": "observe", "m": m, "tests": tests} for m in watch]
+    return _job(seed, tag, env, ops, timeout=1500)
+
+
 def systematic_jobs(tier: str, seed: int, ctx) -> list[dict]:
     jobs = []
+    if tier == "thorough":
+        for i, env in enumerate(ENVS):
+            jobs.append(_whole_catalogue_job(seed, f"sys:all:{i}", env, i if i else -1, None))
+    else:
+        jobs.append(_whole_catalogue_job(seed, "sys:all:0", ENV0, -1, 50))
+        jobs.append(_whole_catalogue_job(seed, "sys:all:1", ENVS[2], 1, 50))
     for i, m in enumerate(modules()):
         deps = closure_deps(m)
         pre = [{"op": "import", "m": d} for d in deps]
